@@ -7,6 +7,13 @@ CLAIMS = {
  # id: (level text, technique, design_ref)
  "C01": ("Structural necessary conditions of exactly-once/in-order/unmodified fan-out decided on every path and call site of the current source: single producer path and single consumer per queue, same object broadcast, push-exactly-once path rule, no store into published packets, adapters write the packet they were given. Does not decide delivery histories or wire bytes.",
          "custom SSA path-state + call-graph ownership analysis (go/ssa, VTA)", "DESIGN.md §3 C01"),
+
+ "C02": ("Structural necessary conditions of gap-free, repeat-free joining decided on every path: one Stream mutex held across cache+broadcast and across snapshot+register; every PushTo replays all non-nil parameter sets in order before the GOP (FLV copies restamped to the first GOP tag); the three CachePack siblings obey one reset/append/flag discipline under their lock. Does not decide classification of every packetisation or timestamp values.",
+         "custom SSA lockset + path-state + sibling-agreement analysis", "DESIGN.md §3 C02"),
+ "C03": ("Structural necessary conditions of release decided on every path: no lost wake-up on close for all four queue workers, attach cannot survive a close, Stream.close closes every closable field, connection counters are paired by a deferred Release, count updated atomically with the map, every registered consumer type's Close closes its connection. Does not decide promptness or goroutine census.",
+         "custom SSA path-state + lockset + call-graph analysis", "DESIGN.md §3 C03"),
+ "C04": ("Structural necessary conditions of consumer isolation: publisher call graph reaches no blocking operation nor any Consume; consume loop has recover->detach->close; discarding toggles only on key-frame edges under the right backlog comparison; limit constant 1000. Does not decide the numeric backlog bound.",
+         "module-bounded call-graph reachability + SSA path-state", "DESIGN.md §3 C04"),
 }
 NA = {
  "C16": "pure input/output language equivalence of the pattern matcher over all pattern/path pairs: truth lives in string values, no structural clause implies it; deciding it needs exhaustive evaluation (execution), a different technique family",
